@@ -43,8 +43,11 @@ var polluters = map[string]string{
 	"mutateprops":   `_.props.top = 1; if (_.props.n) { _.props.n.k = 2; _.props.n.added = {x: 1}; } if (_.props.list) { _.props.list.push(9); } if (_.props.labels) { _.props.labels.env = "x"; } if (_.props.peers) { _.props.peers[0] = "x"; } if (_.props.rows) { _.props.rows[0].r = "x"; } return _.bindings;`,
 	"throwafter":    `polluted = 1; Object.prototype.polluted = 1; _.bindings.n.k = 98; throw "boom";`,
 	"emitandmutate": `var m = {a: {b: 1}}; _.out(m); m.a.b = 2; _.bindings.n.k = 97; return _.bindings;`,
+	// (also for bindings that are empty: there is something to modify - the map itself)
+	"addkeys":     `_.bindings.added = 1; _.bindings["?attempts"] = 1; _.bindings.evil = 1; return {ok: 1};`,
+	"addkeysthrow": `_.bindings.added = 1; _.bindings.evil = 1; throw "boom";`,
 }
-var polluterNames = []string{"defglobal", "patchproto", "patchjson", "replaceenv", "mutatenested", "mutateprops", "throwafter", "emitandmutate"}
+var polluterNames = []string{"defglobal", "patchproto", "patchjson", "replaceenv", "mutatenested", "mutateprops", "throwafter", "emitandmutate", "addkeys", "addkeysthrow"}
 
 const probeSrc = `
 var r = {};
@@ -59,7 +62,12 @@ r.propstop = (_.props.top === undefined) ? "clean" : "set";
 return r;
 `
 
+var bsMode = 0 // 0: nested values, 1: empty (the same for every execution of a case)
+
 func freshBs() match.Bindings {
+	if bsMode == 1 {
+		return match.Bindings{}
+	}
 	return match.Bindings{"n": map[string]interface{}{"k": float64(1), "deep": map[string]interface{}{"z": []interface{}{}}},
 		"arr": []interface{}{float64(1), float64(2)}, "gone": "here"}
 }
@@ -133,6 +141,7 @@ func isoCase(id int) O {
 	in := ecmascript.NewInterpreter()
 	ctx := context.Background()
 	propsMode = []int{0, 0, 1, 2}[rng.Intn(4)]
+	bsMode = []int{0, 0, 0, 1}[rng.Intn(4)]
 	bs, props := freshBs(), freshProps()
 	bsBefore, propsBefore := enc.Bs(bs), enc.V(plainJSON(map[string]interface{}(props)))
 	compiled := map[string]interface{}{}
@@ -181,7 +190,7 @@ func isoCase(id int) O {
 		}(k)
 	}
 	wg.Wait()
-	return O{"id": id, "kind": "iso", "propsMode": propsMode, "polluters": seq, "solo": solo, "after": after, "concurrent": conc,
+	return O{"id": id, "kind": "iso", "propsMode": propsMode, "bsMode": bsMode, "polluters": seq, "solo": solo, "after": after, "concurrent": conc,
 		"bsBefore": bsBefore, "bsAfter": bsAfter, "propsBefore": propsBefore, "propsAfter": propsAfter,
 		"raw": enc.Canon(O{"polluters": names})}
 }
@@ -197,8 +206,11 @@ var loops = map[string]string{
 	"strings":   `var s = ""; for (;;) { s = s + "x"; if (s.length > 1000) { s = ""; } }`,
 	"nested":    `for (;;) { for (var i = 0; i < 1000; i++) { var x = i * 2; } }`,
 	"finite":    `var t = 0; for (var i = 0; i < 20000; i++) { t += i; } return {t: t};`,
+	// interpreted code that runs after the program proper: a getter of the returned object, the text of a thrown value
+	"getterloop":   `return {get x() { for (;;) { } }};`,
+	"tostringloop": `throw {toString: function() { for (;;) { } }};`,
 }
-var loopNames = []string{"tight", "counter", "recursion", "props", "arrays", "strings", "nested", "finite"}
+var loopNames = []string{"tight", "counter", "recursion", "props", "arrays", "strings", "nested", "finite", "getterloop", "tostringloop"}
 
 // scripts that end by themselves, in every way an execution can end: whatever the execution started
 // (the watcher goroutine) must end with the call on each of these paths
